@@ -1,5 +1,5 @@
 /-
-Model of `pymoto/routines.py: finite_difference` (lines 23-285) and `_has_signal_overlap` (10-19),
+Model of `pymoto/routines.py: finite_difference` (the repaired code of commits 5a72e1d, 78c84b5, 1e60d0e, 2ebe49a) and `_has_signal_overlap` (10-19),
 on top of the C02 model of `Module` / `Network` / `Signal` / `SignalSlice` (`Core/Network.lean`).
 No Mathlib.
 
@@ -12,19 +12,22 @@ No Mathlib.
   model at `Cx Rat` (complex numbers as pairs of exact rationals, `dx = 2⁻ᵏ` exact); a real run is the
   instance `re = id`, `im = 0`, all `cx` flags false.  `cx` (= `np.iscomplexobj`, a property of the
   dtype, not of the value) is static information attached to every input / output signal.
-* Array states are flat (C order, the order of `np.nditer` on a C-contiguous array); a sparse-matrix
-  OUTPUT is the flat vector of its `toarray()`.  Sparse-matrix INPUT signals are not modelled
-  (`np.nditer` raises on them — recorded defect candidate `corpus/defects/c19_sparse_input.py.candidate`).
+* Array states are flat (C order, the order of `np.nditer` on a C-contiguous array); a sparse matrix
+  (input or output) is the flat vector of its `toarray()`.  For a sparse-matrix INPUT (csr / csc /
+  coo) the code iterates over the stored values `x.data`; `InSig.visit` lists the flat positions
+  `row * ncols + col` of the stored values in that order (for every other input it is
+  `0, 1, …, n-1`).  Any other sparse format is not iterable (`InSig.unsupported`, TypeError).
 * `x = Sin.state` is read once per input; the perturbed / restored array is handed back with
-  `Sin.state = x` (`setState`).  For a plain `Signal` and for a basic-slice (view) `SignalSlice` this is
-  exactly what the code does as long as the block does not write the input in place; integer-array
-  (copy) slices as FD inputs are outside the model (their imaginary pass perturbs only the copy —
-  defect candidate `c19_fancy_slice_complex`).
+  `Sin.state = x` (`setState`) after every perturbation and every restore, in the real AND in the
+  imaginary pass.  This is exactly what the code does for a plain `Signal`, a basic-slice (view)
+  and an integer-array (copy) `SignalSlice`, as long as the block does not itself write the input
+  (an input the block overwrites is not an independent variable; such calls are outside the model).
 * the seeds: `use_df`, `np.ones` or the values drawn by `np.random.rand` (recorded and passed in);
-  for a complex output `ones + 1j*ones` / `r1 + 1j*r2` as coded.
-* `Signal.reset` of a plain `keep_alloc` output zeroes the seed array IN PLACE and `df_an[Iout]` is
-  that very array, so the finite differences of such an output are weighted with zeros (`wEff`) —
-  modelled as coded; defect candidate `c19_seed_alias`.
+  for a complex output `ones + 1j*ones` / `r1 + 1j*r2` as coded.  The signal receives a deep copy,
+  so the seed used in the numerical pass is the intended one whatever `reset` does.
+* after every `blk.reset()` the signals of interest are reset as well
+  (`[s.reset() for s in (*inps, *outps)]`, `resetAll`), whether or not they belong to the executed
+  modules.
 * every call of `test_fn(x0, dx, dgdx_an, dgdx_fd)` is recorded in order, tagged with (input, entry,
   pass, output); the tolerance / error / printing logic has no observable effect and is not modelled.
 -/
@@ -77,6 +80,10 @@ structure InSig where
   sig : Sig
   cx : Bool
   pyScalar : Bool
+  /-- flat positions visited by the iterator, in order (`range n`; stored entries of a sparse matrix) -/
+  visit : List Nat
+  /-- a state `np.nditer` cannot iterate (sparse matrix in a format other than csr / csc / coo) -/
+  unsupported : Bool
 
 structure OutSig (α : Type) where
   sig : Sig
@@ -121,21 +128,25 @@ def progBlk (L : Layout) (g gs : Prog α) : Blk α :=
 /-- the values of a signal (by flat position) in a flat vector -/
 def sigVals (s : Sig) (f : Nat → α) : Nat → α := fun j => f (s.ents.getD j 0)
 
-/-- `df_an[Iout]` (lines 110-122) -/
+/-- `df_an[Iout]` -/
 def seedVals (ops : Ops α) (o : OutSig α) : Nat → α :=
   match o.seed with
   | .useDf v => v
   | .ones => if o.cx then fun _ => 1 + ops.I * 1 else fun _ => 1
   | .rand r1 r2 => if o.cx then fun j => r1 j + ops.I * r2 j else r1
 
-/-! ## analytical pass (lines 94-136) -/
+/-- `blk.reset()` followed by `[s.reset() for s in (*inps, *outps)]` -/
+def resetAll (B : Blk α) (L : Layout) (extra : List Sig) (σ : Store α) : Store α :=
+  extra.foldl (fun σ s => resetSig L s σ) (B.reset σ)
 
-def analyticalOne (ops : Ops α) (B : Blk α) (L : Layout) (inps : List InSig) (o : OutSig α)
-    (σ : Store α) : Except String (Store α × Option (OutRec α)) :=
+/-! ## analytical pass -/
+
+def analyticalOne (ops : Ops α) (B : Blk α) (L : Layout) (extra : List Sig) (inps : List InSig)
+    (o : OutSig α) (σ : Store α) : Except String (Store α × Option (OutRec α)) :=
   if !o.sig.hasState σ then .ok (σ, none)                       -- `output is None`: warn, continue
   else
     let w := seedVals ops o
-    match seed L o.sig (some w) σ with                          -- `Sout.sensitivity = df_an[Iout]`
+    match seed L o.sig (some w) σ with                          -- `Sout.sensitivity = deepcopy(df_an[Iout])`
     | .error e => .error e
     | .ok σa =>
       match B.sensitivity σa with                               -- `blk.sensitivity()`
@@ -143,22 +154,20 @@ def analyticalOne (ops : Ops α) (B : Blk α) (L : Layout) (inps : List InSig) (
       | .ok σb =>
         let dxan := inps.map fun i =>
           if i.sig.hasSens σb then some (sigVals i.sig σb.se) else none
-        -- `blk.reset()` zeroes the seed array of a plain keep_alloc output in place
-        let wEff : Nat → α := if !o.sig.isSlice && L.keep o.sig.base then fun _ => 0 else w
-        .ok (B.reset σb, some ⟨sigVals o.sig σ.st, wEff, dxan⟩)
+        .ok (resetAll B L extra σb, some ⟨sigVals o.sig σ.st, w, dxan⟩)
 
-def analytical (ops : Ops α) (B : Blk α) (L : Layout) (inps : List InSig) :
+def analytical (ops : Ops α) (B : Blk α) (L : Layout) (extra : List Sig) (inps : List InSig) :
     List (OutSig α) → Store α → Except String (Store α × List (Option (OutRec α)))
   | [], σ => .ok (σ, [])
   | o :: os, σ =>
-    match analyticalOne ops B L inps o σ with
+    match analyticalOne ops B L extra inps o σ with
     | .error e => .error e
     | .ok (σ1, r) =>
-      match analytical ops B L inps os σ1 with
+      match analytical ops B L extra inps os σ1 with
       | .error e => .error e
       | .ok (σ2, rs) => .ok (σ2, r :: rs)
 
-/-! ## one perturbation (lines 171-219 / 229-276) -/
+/-! ## one perturbation -/
 
 /-- `dgdx_fd`: `np.real / np.imag (np.sum((fp - f0) / den * df_an))` -/
 def fdVal (ops : Ops α) (imag : Bool) (den : α) (o : OutSig α) (r : OutRec α) (σr : Store α) : α :=
@@ -238,36 +247,37 @@ def entryLoop (ops : Ops α) (B : Blk α) (cfg : Cfg α) (i : InSig) (iin : Nat)
       | .error e => .error e
       | .ok (σ2, c2) => .ok (σ2, c1 ++ c2)
 
-/-- `for Iin, Sin in enumerate(inps)` (lines 139-281) -/
+/-- `for Iin, Sin in enumerate(inps)` -/
 def inputLoop (ops : Ops α) (B : Blk α) (cfg : Cfg α) (outps : List (OutSig α))
     (recs : List (Option (OutRec α))) :
     Nat → List InSig → Store α → Except String (Store α × List (Call α))
   | _, [], σ => .ok (σ, [])
   | iin, i :: is, σ =>
     if !i.sig.hasState σ then .error "ValueError"               -- `np.nditer(None)`
+    else if i.unsupported then .error "TypeError"               -- `np.nditer` on an object array
     else
-      match entryLoop ops B cfg i iin outps recs (sigVals i.sig σ.st)
-          (List.range i.sig.ents.length) σ with
+      match entryLoop ops B cfg i iin outps recs (sigVals i.sig σ.st) i.visit σ with
       | .error e => .error e
       | .ok (σ1, c1) =>
         match inputLoop ops B cfg outps recs (iin + 1) is σ1 with
         | .error e => .error e
         | .ok (σ2, c2) => .ok (σ2, c1 ++ c2)
 
-/-- lines 77-285 for a given block -/
+/-- everything after the sub-network selection, for a given block -/
 def fdCore (ops : Ops α) (B : Blk α) (L : Layout) (cfg : Cfg α) (inps : List InSig)
     (outps : List (OutSig α)) (σ : Store α) : Except String (Res α) :=
-  match B.response (B.reset σ) with                             -- initial reset, response
+  let extra := inps.map (·.sig) ++ outps.map (·.sig)
+  match B.response (resetAll B L extra σ) with                  -- initial reset, response
   | .error e => .error e
   | .ok σ2 =>
-    match analytical ops B L inps outps σ2 with
+    match analytical ops B L extra inps outps σ2 with
     | .error e => .error e
     | .ok (σ3, recs) =>
       match inputLoop ops B cfg outps recs 0 inps σ3 with
       | .error e => .error e
       | .ok (σ4, calls) => .ok ⟨σ4, calls⟩
 
-/-! ## sub-network selection (lines 51-68) -/
+/-! ## sub-network selection -/
 
 def allInSB : Prog α → List (Nat × Nat)
   | .done => []
